@@ -95,14 +95,14 @@ static struct ext2_xattr ATTRS[2];
 static unsigned int extra0, extra, room, ioff;	/* i_extra_isize before / as the function must see it, has in-inode region, its offset */
 static unsigned long long acl0, iblk0;
 
-static void setup(void)
+/* isz: the inode size as a CONSTANT (the harnesses call their body once per size, so that buffer sizes stay constants) */
+static void setup(const unsigned int isz)
 {
-	LOAD_IN();
-	ASSUME(IN.inode_size == 128 || IN.inode_size == 256);
+	IN.inode_size = isz;
 	ASSUME(IN.count >= 0 && IN.count <= 1000 && IN.ibody_count >= 0 && IN.ibody_count <= IN.count);
 	ASSUME(IN.rc_iread >= 0 && IN.rc_iwrite >= 0 && IN.rc_bread >= 0 && IN.rc_bwrite[0] >= 0 && IN.rc_bwrite[1] >= 0 && IN.rc_csum >= 0 && IN.rc_alloc >= 0 && IN.rc_wb[0] >= 0 && IN.rc_wb[1] >= 0);
 	ASSUME(IN.want_extra_isize <= IN.inode_size - 128);
-	ASSUME(IN.new_blk != IN.inode.i_file_acl && IN.new_blk >= IN.first_data_block && IN.new_blk < IN.blocks_count && IN.blocks_count <= 0xffffffffull);
+	ASSUME(IN.new_blk != 0 && IN.new_blk != IN.inode.i_file_acl && IN.new_blk >= IN.first_data_block && IN.new_blk < IN.blocks_count && IN.blocks_count <= 0xffffffffull);
 	memset(&SB, 0, sizeof(SB));
 	SB.s_rev_level = 1; SB.s_inode_size = IN.inode_size; SB.s_want_extra_isize = IN.want_extra_isize;
 	SB.s_blocks_count = (unsigned int)IN.blocks_count; SB.s_first_data_block = IN.first_data_block;
@@ -142,9 +142,9 @@ static void setup(void)
 		CHECK(xw_wb.n == ((nb) > 0 ? 1u : 0u), "no room in the inode: no in-inode region is produced"); \
 } while (0)
 
-void h_write_place(void)
+static void b_write_place(const unsigned int isz)
 {
-	setup();
+	setup(isz);
 	const int nb = IN.count - IN.ibody_count;	/* attributes left for the block */
 	ASSUME(!(nb == 0 && acl0 != 0));		/* unit xattrs_write_empty_block */
 	errcode_t r = ext2fs_xattrs_write(&H);
@@ -200,9 +200,9 @@ void h_write_place(void)
 }
 
 /* B: the last attribute left the block */
-void h_write_empty_block(void)
+static void b_write_empty_block(const unsigned int isz)
 {
-	setup();
+	setup(isz);
 	const int nb = IN.count - IN.ibody_count;
 	ASSUME(nb == 0 && acl0 != 0);
 	errcode_t r = ext2fs_xattrs_write(&H);
@@ -220,9 +220,9 @@ void h_write_empty_block(void)
 }
 
 /* item 5: i_blocks of the owner after the first EA-inode valued attribute was added */
-void h_write_ea_inode_charge(void)
+static void b_write_ea_inode_charge(const unsigned int isz)
 {
-	setup();
+	setup(isz);
 	ASSUME(IN.count == 1 && IN.ea_ino != 0 && IN.ea_value_len <= X2SPEC_VALUE_MAX);
 	ASSUME(acl0 == 0);					/* the inode had no attributes */
 	ASSUME(iblk0 <= 0x7fffffffu);				/* room in the 32-bit field */
@@ -238,3 +238,8 @@ void h_write_ea_inode_charge(void)
 	}
 	REACH("end");
 }
+
+#define BY_INODE_SIZE(body) do { LOAD_IN(); ASSUME(IN.inode_size == 128 || IN.inode_size == 256); if (IN.inode_size == 128) body(128); else body(256); } while (0)
+void h_write_place(void) { BY_INODE_SIZE(b_write_place); }
+void h_write_empty_block(void) { BY_INODE_SIZE(b_write_empty_block); }
+void h_write_ea_inode_charge(void) { BY_INODE_SIZE(b_write_ea_inode_charge); }
